@@ -86,6 +86,7 @@ FEATURES = {
     'param': 'the tree contains a Parameter (`?`)',
     'ident-empty': 'an identifier part is the empty string',
     'ident-bq': 'an identifier part contains a back-quote',
+    'key-empty-part': 'a USING / SET parameter name (kept as a dotted string) has an empty part (written a."")',
     'ident-noparts': 'an identifier has no parts at all (built from a double-quoted string consisting of dots)',
     'ident-quoted': 'an identifier part needs quoting (not a plain word: blank, dot, digit first, non-ASCII, ...)',
     'ident-reserved': 'an identifier part is a plain word that parts_to_str back-quotes (reserved word)',
@@ -264,6 +265,11 @@ def features(dialect, text, tree, printed):
                             fs.add('col-nonstr')
                         elif not WORD.fullmatch(nm) or nm.upper() in res:
                             fs.add('col-quoted')
+        for k, v in vars(n).items():
+            if isinstance(v, dict):
+                for key in v:
+                    if isinstance(key, str) and key != '' and '' in key.split('.'):
+                        fs.add('key-empty-part')
         # every string held by the node (values, dict parameters, raw strings)
         acc = []
         for k, v in vars(n).items():
